@@ -1,0 +1,76 @@
+//! Verification hooks, compiled only with the cargo feature `verif-hooks` (off by default).
+//!
+//! `RwLock` is a thin newtype over `std::sync::RwLock` whose `read`/`write` first report a
+//! scheduling point to an installable callback and then acquire with `try_*` in a yield loop,
+//! so that an external deterministic scheduler can decide which thread passes a lock
+//! acquisition next. Without an installed callback (or on threads the callback does not
+//! control) it behaves exactly like `std::sync::RwLock`.
+
+use std::sync::{Arc, LockResult, RwLockReadGuard, RwLockWriteGuard, TryLockError};
+
+/// Callback: `(label, blocked)`; returns `true` when the calling thread is controlled by a
+/// scheduler (the lock then spins through the callback instead of blocking in the OS).
+pub type YieldHook = Arc<dyn Fn(&'static str, bool) -> bool + Send + Sync>;
+
+static HOOK: std::sync::RwLock<Option<YieldHook>> = std::sync::RwLock::new(None);
+
+/// Install (or remove) the process-wide yield callback.
+pub fn install(hook: Option<YieldHook>) {
+    *HOOK.write().unwrap() = hook;
+}
+
+/// Report a scheduling point. Returns `true` if a scheduler controls this thread.
+pub fn yield_point(label: &'static str, blocked: bool) -> bool {
+    let hook = HOOK.read().unwrap().clone();
+    match hook {
+        Some(hook) => hook(label, blocked),
+        None => false,
+    }
+}
+
+/// Drop-in replacement for `std::sync::RwLock` with scheduling points before acquisition.
+#[derive(Debug, Default)]
+pub struct RwLock<T>(std::sync::RwLock<T>);
+
+impl<T> RwLock<T> {
+    /// see `std::sync::RwLock::new`
+    pub fn new(value: T) -> Self {
+        RwLock(std::sync::RwLock::new(value))
+    }
+
+    /// see `std::sync::RwLock::read`
+    pub fn read(&self) -> LockResult<RwLockReadGuard<'_, T>> {
+        if !yield_point("rwlock.read", false) {
+            return self.0.read();
+        }
+        loop {
+            match self.0.try_read() {
+                Ok(guard) => return Ok(guard),
+                Err(TryLockError::Poisoned(err)) => return Err(err),
+                Err(TryLockError::WouldBlock) => {
+                    if !yield_point("rwlock.read", true) {
+                        return self.0.read();
+                    }
+                }
+            }
+        }
+    }
+
+    /// see `std::sync::RwLock::write`
+    pub fn write(&self) -> LockResult<RwLockWriteGuard<'_, T>> {
+        if !yield_point("rwlock.write", false) {
+            return self.0.write();
+        }
+        loop {
+            match self.0.try_write() {
+                Ok(guard) => return Ok(guard),
+                Err(TryLockError::Poisoned(err)) => return Err(err),
+                Err(TryLockError::WouldBlock) => {
+                    if !yield_point("rwlock.write", true) {
+                        return self.0.write();
+                    }
+                }
+            }
+        }
+    }
+}
